@@ -21,7 +21,7 @@
 (*   QuotaResetFirst = TRUE   the original order in async_sender::resend() *)
 (*   ResendGuard     = FALSE  no guard against a second resend per stream  *)
 (***************************************************************************)
-EXTENDS Observer
+EXTENDS Observer, SenderCore
 
 CONSTANTS
     NOps,            \* number of application requests
@@ -36,7 +36,7 @@ CONSTANTS
                      \* FALSE: only the engine-level invariants below (large configurations)
 
 Ops == 1..NOps
-MAXLIM == 65535
+MAXLIM == MAXLIMIT
 
 VARIABLES
     c,        \* the client engine (record, see CInit)
@@ -52,7 +52,7 @@ vars == <<c, net, brk, o, bad, hist>>
 (* records *)
 
 Req(op, pk, pid, thr, prio, serial, dup) ==
-    [op |-> op, pk |-> pk, pid |-> pid, thr |-> thr, prio |-> prio, serial |-> serial, dup |-> dup]
+    [op |-> op, pk |-> pk, pid |-> pid, thr |-> thr, prio |-> prio, serial |-> serial, dup |-> dup, term |-> FALSE]
 
 QosOf(op) == IF KindOf[op] = "pub0" THEN 0 ELSE IF KindOf[op] = "pub1" THEN 1 ELSE IF KindOf[op] = "pub2" THEN 2 ELSE 0
 IsPub(op) == KindOf[op] \in {"pub0", "pub1", "pub2"}
@@ -93,17 +93,6 @@ FoldEv(ob, b, evs) ==
 ---------------------------------------------------------------------------
 (* async_sender::do_write (async_sender.hpp) as a function of the engine state *)
 
-\* unthrottled always, throttled while quota lasts, order kept
-TakeQ(q, qt) ==
-    LET F[i \in 0..Len(q)] ==
-            IF i = 0 THEN [b |-> << >>, r |-> << >>, qt |-> qt]
-            ELSE LET p == F[i - 1]
-                     x == q[i]
-                 IN IF ~x.thr THEN [p EXCEPT !.b = Append(@, x)]
-                    ELSE IF p.qt > 0 THEN [p EXCEPT !.b = Append(@, x), !.qt = @ - 1]
-                    ELSE [p EXCEPT !.r = Append(@, x)]
-    IN F[Len(q)]
-
 PktEvent(conn, w, r) ==
     [e |-> "c_pkt", c |-> conn, w |-> w, type |-> r.pk, pid |-> r.pid,
      qos |-> IF r.pk = "PUBLISH" THEN QosOf(r.op) ELSE 0, dup |-> r.dup, rc |-> 0,
@@ -117,8 +106,7 @@ EmitPkts(cl, conn, w, b) ==
 \* conn: id of the stream the client writes to (the observer decides what that means)
 DoWrite(cl, conn) ==
     IF cl.wip \/ cl.wq = << >> THEN cl
-    ELSE LET tk == IF cl.limit = MAXLIM THEN [b |-> cl.wq, r |-> << >>, qt |-> cl.quota]
-                   ELSE TakeQ(cl.wq, cl.quota)
+    ELSE LET tk == FormBatch(cl.wq, cl.quota, cl.limit)
          IN IF tk.b = << >> THEN cl
             ELSE LET w == cl.w + 1
                      pubs == SelectSeq(tk.b, LAMBDA r : r.pk = "PUBLISH" /\ QosOf(r.op) > 0)
@@ -131,17 +119,6 @@ DoWrite(cl, conn) ==
                                    pk |-> [i \in 1..Len(tk.b) |-> tk.b[i].pk]])
 
 Send(cl, conn, r) == DoWrite([cl EXCEPT !.wq = Append(@, r)], conn)
-
-\* write_req::operator<  (prioritized first, then wrap-aware serial; serials are small here)
-ReqLess(a, b) == IF a.prio # b.prio THEN a.prio ELSE a.serial < b.serial
-
-\* std::stable_sort by ReqLess = insertion sort keeping equal elements in order
-StableSort(q) ==
-    LET Ins(s, x) ==   \* insert x after the last element that is not greater than x
-            LET k == IF \E i \in DOMAIN s : ReqLess(x, s[i]) THEN Min({i \in DOMAIN s : ReqLess(x, s[i])}) ELSE Len(s) + 1
-            IN SubSeq(s, 1, k - 1) \o <<x>> \o SubSeq(s, k, Len(s))
-        F[i \in 0..Len(q)] == IF i = 0 THEN << >> ELSE Ins(F[i - 1], q[i])
-    IN F[Len(q)]
 
 ---------------------------------------------------------------------------
 (* completion of a request: free_pid (+ throttled_op_done) and the handler *)
